@@ -149,7 +149,7 @@ func verifSameBytes(a, b []byte) bool {
 // verifSend drives Send with a symbolic body, header, accepted/extra-retry
 // code configuration and retry budget, and checks the statement on the
 // attempts seen by the transport.
-func verifSend(withBody, withRetry bool) {
+func verifSend(withBody, withRetry, allConfigs bool) {
 	wire := &verifWire{}
 	rawurl := "http://origin:80/x/y?z=1"
 	var tr http.RoundTripper = &verifTransport{wire}
@@ -185,7 +185,11 @@ func verifSend(withBody, withRetry bool) {
 
 	// accepted codes: the default {200}, a 2xx pair, or a set with a 5xx code
 	accepted := []int{200}
-	switch verif.Choice("accepted_set", 3) {
+	nconf := 1
+	if allConfigs {
+		nconf = 3
+	}
+	switch verif.Choice("accepted_set", nconf) {
 	case 1:
 		accepted = []int{200, 202}
 		opts = append(opts, SendAcceptedCodes(200, 202))
@@ -206,7 +210,7 @@ func verifSend(withBody, withRetry bool) {
 		}
 		// extra retry codes; a code that is both accepted and retried is a
 		// contradictory configuration (RetryCodes doc) and is left out
-		switch verif.Choice("extra_retry_code", 3) {
+		switch verif.Choice("extra_retry_code", nconf) {
 		case 1:
 			ropts = append(ropts, RetryCodes(400))
 		case 2:
@@ -251,11 +255,11 @@ func verifSend(withBody, withRetry bool) {
 
 // VerifSendNoBody: body-less requests of every method, with and without
 // retries.
-func VerifSendNoBody() { verifSend(false, true) }
+func VerifSendNoBody() { verifSend(false, true, true) }
 
 // VerifSendBodyNoRetry: requests with every body kind, single attempt.
-func VerifSendBodyNoRetry() { verifSend(true, false) }
+func VerifSendBodyNoRetry() { verifSend(true, false, true) }
 
 // VerifFindingSendBodyRetry: requests with a body and a retry budget (see
 // FINDINGS.md).
-func VerifFindingSendBodyRetry() { verifSend(true, true) }
+func VerifFindingSendBodyRetry() { verifSend(true, true, false) }
